@@ -39,7 +39,8 @@ type CLICase struct {
 	Against map[string]string `json:"against,omitempty"`
 	Command string            `json:"command"` // build | lint | breaking | format
 	Plants  []Plant           `json:"plants,omitempty"`
-	Op      string            `json:"op,omitempty"` // operational failure: no-input | bad-yaml | unknown-rule | unknown-flag
+	Op      string            `json:"op,omitempty"`       // operational failure: no-input | bad-yaml | unknown-rule | unknown-flag
+	FmtMode string            `json:"fmt_mode,omitempty"` // format only: "-d" (default) | "stdout" | "-w" | "-d -w" | "-o"
 }
 
 var hostileDirs = []string{"mod", "proto dir", "prötö", "文件夹", "it's", `say "hi"`, "a<b>&c", "50%off", "x,y", "tab\there", "dir=eq", "(paren)", "semi;colon", "#hash", "a&amp;b"}
@@ -120,7 +121,10 @@ func genCLICase(t *rapid.T) *CLICase {
 	sort.Strings(protoFiles)
 	c.Files["buf.yaml"] = bufYAML(dirs, "STANDARD")
 	c.Against["buf.yaml"] = c.Files["buf.yaml"]
-	c.Command = rapid.SampledFrom([]string{"build", "lint", "breaking", "format", "lint", "breaking"}).Draw(t, "command")
+	c.Command = rapid.SampledFrom([]string{"build", "lint", "breaking", "format", "lint", "breaking", "format"}).Draw(t, "command")
+	if c.Command == "format" {
+		c.FmtMode = rapid.SampledFrom([]string{"-d", "stdout", "-w", "-d -w", "-o"}).Draw(t, "fmtmode")
+	}
 
 	if rapid.IntRange(0, 9).Draw(t, "op") == 0 {
 		c.Op = rapid.SampledFrom([]string{"no-input", "bad-yaml", "unknown-rule", "unknown-flag"}).Draw(t, "opkind")
@@ -302,7 +306,17 @@ func cliArgs(c *CLICase, format string) []string {
 	case "breaking":
 		args = []string{"breaking", "--against", "../against", "--error-format", format}
 	case "format":
-		args = []string{"format", "--exit-code", "-d", "--error-format", format}
+		args = []string{"format", "--exit-code", "--error-format", format}
+		switch c.FmtMode {
+		case "", "-d":
+			args = append(args, "-d")
+		case "-w":
+			args = append(args, "-w")
+		case "-d -w":
+			args = append(args, "-d", "-w")
+		case "-o":
+			args = append(args, "-o", "../formatted-out")
+		}
 	}
 	switch c.Op {
 	case "no-input":
@@ -340,7 +354,14 @@ func checkCLI(c *CLICase, tmp string) (key, msg string, err error) {
 	}
 	exp := expect(c)
 	results := map[string]runResult{}
-	for _, f := range allFormats {
+	for i, f := range allFormats {
+		if i > 0 && c.Command == "format" {
+			// format -w rewrites the sources and -o leaves an output directory: every run starts from the same tree
+			if err := writeTree(root, c.Files); err != nil {
+				return "", "", err
+			}
+			_ = os.RemoveAll(filepath.Join(tmp, "formatted-out"))
+		}
 		code, so, se := bufcli.Run(context.Background(), env, "", cliArgs(c, f)...)
 		results[f] = runResult{code, so, se}
 	}
@@ -370,11 +391,29 @@ func checkCLI(c *CLICase, tmp string) (key, msg string, err error) {
 	}
 	if c.Command == "format" {
 		r := results["text"]
-		if exp.exit == 0 && (r.stdout != "" || r.stderr != "") {
-			return "exit-code:format", "exit 0 but something was printed\n" + describe("text"), nil
+		mode := c.FmtMode
+		if mode == "" {
+			mode = "-d"
 		}
-		if exp.exit == 100 && !strings.Contains(r.stdout, "@@") {
+		wantsDiff := mode == "-d" || mode == "-d -w"
+		if r.stderr != "" {
+			return "exit-code:format", "format printed to stderr\n" + describe("text"), nil
+		}
+		if wantsDiff && exp.exit == 0 && r.stdout != "" {
+			return "exit-code:format", "exit 0 but a diff was printed\n" + describe("text"), nil
+		}
+		if wantsDiff && exp.exit == 100 && !strings.Contains(r.stdout, "@@") {
 			return "exit-code:format", "exit 100 but no diff on stdout\n" + describe("text"), nil
+		}
+		if (mode == "-w" || mode == "-o") && r.stdout != "" {
+			return "exit-code:format", "format " + mode + " printed to stdout\n" + describe("text"), nil
+		}
+		if mode == "-w" || mode == "-d -w" {
+			// the sources were rewritten: a second run has nothing left to report
+			code, so, se := bufcli.Run(context.Background(), env, "", "format", "--exit-code", "-d")
+			if code != 0 || so != "" || se != "" {
+				return "exit-code:format", fmt.Sprintf("after format %s a second `format --exit-code -d` exits %d\n--- stdout:\n%s\n--- stderr:\n%s", mode, code, so, se), nil
+			}
 		}
 		return "", "", nil
 	}
@@ -508,7 +547,7 @@ func TestCLI(t *testing.T) {
 	r := evid.R()
 	base := t.TempDir()
 	n := 0
-	r.Check(t, r.Scale(240, 8000), 2, func(t *rapid.T) {
+	r.Check(t, r.Scale(240, 6000), 2, func(t *rapid.T) {
 		n++
 		c := genCLICase(t)
 		tmp := filepath.Join(base, fmt.Sprintf("case-%d", n))
@@ -519,6 +558,9 @@ func TestCLI(t *testing.T) {
 		}
 		r.Eval()
 		r.Class("cli-" + c.Command)
+		if c.FmtMode != "" {
+			r.Class("cli-format-mode " + c.FmtMode)
+		}
 		if c.Op != "" {
 			r.Class("cli-op-" + c.Op)
 		}
